@@ -70,6 +70,10 @@ pub enum Action {
 	Acme(String),
 	AcmeUnknownType,
 	AcmeNoType,
+	/// problem document of this type WITHOUT a Replay-Nonce header (a server that breaks RFC 8555 6.5)
+	AcmeNoNonce(String),
+	/// problem document of this type whose detail is ~1.6 kB of 4-byte characters after `shift` ASCII characters
+	AcmeLongDetail(String, usize),
 	NonJson(u16),
 	Empty(u16),
 	DropBeforeRead,
@@ -85,6 +89,8 @@ pub enum Action {
 	/// order reported valid without a certificate URL
 	ValidWithoutCertificate,
 	NonPemBody,
+	/// certificate download: a valid leaf followed by a damaged second PEM block (Content-Length correct)
+	DamagedChain,
 	ForgetAccount,
 }
 
@@ -92,6 +98,8 @@ impl Action {
 	pub fn name(&self) -> String {
 		match self {
 			Action::Acme(t) => format!("acme({t})"),
+			Action::AcmeLongDetail(t, k) => format!("acmeLongDetail({t},{k})"),
+			Action::AcmeNoNonce(t) => format!("acmeNoNonce({t})"),
 			Action::NonJson(c) => format!("nonJson({c})"),
 			Action::Empty(c) => format!("empty({c})"),
 			Action::MissingField(f) => format!("missingField({f})"),
@@ -163,6 +171,10 @@ pub struct CaPlan {
 	/// Retry-After header value attached to authorization / order objects
 	#[serde(default)]
 	pub retry_after: Option<String>,
+	/// identifiers (as ordered) whose challenges are handed out already `processing` (an earlier
+	/// attempt left the validation in flight) while the authorization is still pending
+	#[serde(default)]
+	pub chall_processing: Vec<String>,
 }
 
 fn default_true() -> bool {
@@ -192,6 +204,7 @@ impl Default for CaPlan {
 			token_len: 43,
 			validate: None,
 			retry_after: None,
+			chall_processing: vec![],
 		}
 	}
 }
